@@ -182,13 +182,16 @@ def dispatch (ca : Ca) (child : Handle) (c : ChildRec) : Payload → Ca × Optio
     match lookup ca.classes cls with
     | none => (ca, some (.revokeResponse cls key))   -- unknown class: confirmed, nothing done
     | some _ =>
-      if c.inUse.any (·.1 == key) then
+      -- certauth.rs:1476-1485 (fix 239f0a59): executed only for a key in use in the class the request
+      -- names; a key in use in another class is refused
+      if c.inUse.any (fun ku => ku.1 == key && ku.2 == cls) then
         let c' := { c with inUse := c.inUse.filter (·.1 != key), revoked := key :: c.revoked }
         ({ ca with children := update ca.children child (fun _ => c'),
                    certs := removeKey ca.certs key,
                    suspendedCerts := removeSusp ca.suspendedCerts key cls },
          some (.revokeResponse cls key))
       -- certauth.rs:1476-1487 (fix 7be8c4c6): a key this CA revoked itself - confirmed, nothing done
+      else if c.inUse.any (·.1 == key) then (ca, none)
       else if c.revoked.contains key then (ca, some (.revokeResponse cls key))
       else (ca, none)
   | _ => (ca, none)
